@@ -63,10 +63,29 @@ func (core *JApiCore) buildUserTypes() *jerr.JApiError {
 		return adoptError(err)
 	}
 
+	// Rules have to be added to every user type before any of them is looked at as
+	// a dependency of another one: fetching the used user types loads the schema,
+	// and a loaded schema accepts no more rules.
+	err = core.userTypes.Each(func(n string, ut schema.Schema) error {
+		return core.addRulesToUserType(n, ut)
+	})
+	if err != nil {
+		return adoptError(err)
+	}
+
 	err = core.userTypes.Each(func(n string, _ schema.Schema) error {
 		return core.compileUserTypeWithAllDependencies(n)
 	})
 	return adoptError(err)
+}
+
+func (core *JApiCore) addRulesToUserType(name string, ut schema.Schema) error {
+	for n, r := range core.rules {
+		if err := ut.AddRule(n, r); err != nil {
+			return jschemaToJAPIError(err, core.rawUserTypes.GetValue(name))
+		}
+	}
+	return nil
 }
 
 func (core *JApiCore) compileUserTypeWithAllDependencies(name string) error {
@@ -82,13 +101,6 @@ func (core *JApiCore) compileUserTypeWithAllDependencies(name string) error {
 	}
 
 	dd := core.rawUserTypes
-
-	// Add rules before we try to do something with the type.
-	for n, r := range core.rules {
-		if err := currUT.AddRule(n, r); err != nil {
-			return jschemaToJAPIError(err, dd.GetValue(n))
-		}
-	}
 
 	tt, err := fetchUsedUserTypes(currUT, core.userTypes)
 	if err != nil {
